@@ -1,7 +1,7 @@
 (* C12 -- after de-chunking, the response headers describe the decoded body. *)
 From Coq Require Import String.
 From Http Require Import Model.Bytes Model.Num Model.Headers Model.Request Model.Chunked
-     Model.Response Proofs.HeaderAlgebra Proofs.Rewrite.
+     Model.Response Proofs.HeaderAlgebra Proofs.Rewrite Proofs.TokenRoundTrip.
 
 (* H: the headers as parsed; T: the trailer fields; body: the decoded body.  The parser
    stores [dechunk_headers H T body] (C12_parser_stores_rewrite). *)
@@ -23,6 +23,15 @@ Theorem C12_transfer_encoding :
     match toks with [] => [] | _ => [join [COMMA; SP] toks] end.
 Proof. exact dechunk_transfer_encoding. Qed.
 Print Assumptions C12_transfer_encoding.
+
+(* ... and tokenising that header gives back exactly those codings: the final coding is no longer
+   listed, every other listed coding is, in its original order *)
+Theorem C12_codings_listed :
+  forall (H T : list header) (body : bytes),
+    header_tokens (dechunk_headers H T body) TRANSFER_ENCODING =
+    removelast (filter nonempty (header_tokens H TRANSFER_ENCODING)).
+Proof. exact dechunk_codings_listed. Qed.
+Print Assumptions C12_codings_listed.
 
 Theorem C12_no_trailer_header :
   forall (H T : list header) (body : bytes), has_header (dechunk_headers H T body) TRAILER = false.
